@@ -4,7 +4,8 @@ H = "harness/C24_unitary.py"
 POSITIONS = ["expr-statement", "assignment-value", "return-value", "branch-predicate", "operand-of-binop", "argument-of-classical-call",
              "element-of-tuple", "annassign-value", "augassign-value"]
 KINDS = ["local", "global", "tensor"]
-SHAPES = ["qubit", "classical", "qubit+nested", "nested+qubit", "classical+nested", "qubit-array", "array-of-arrays", "nested-tuple", "array-of-options", "classical+3-deep-tuple"]
+SHAPES = ["qubit", "classical", "qubit+nested", "nested+qubit", "classical+nested", "qubit-array", "array-of-arrays", "nested-tuple", "array-of-options", "classical+3-deep-tuple",
+          "struct-field", "classical-struct", "struct-with-qubit-array", "nested-struct", "generic-struct-of-qubit", "generic-struct-of-int", "array-of-generic-nested-structs"]
 
 
 def run(ctx: Ctx) -> int:
@@ -30,7 +31,7 @@ def run(ctx: Ctx) -> int:
                              "BarrierExpr/StateResultExpr/Assign/AnnAssign/AugAssign/PlaceNode, check_cfg_unitary, check_invalid_under_dagger",
                              "tys/qubit.py: contain_qubit_ty; checker/core.py: contains_subscript; ast_util.py: loop_in_ast, find_nodes"]
     ctx.bounds = {"context flags": "all 8 subsets of {control, dagger, power}", "callee flags": "all 8", "nested call flags": "all 8",
-                  "argument shapes": "qubit | classical | qubit,nested | nested,qubit | classical,nested | array of qubits | array of arrays | tuple in tuple | array of options | 3-deep tuple",
+                  "argument shapes": "qubit | classical | qubit,nested | nested,qubit | classical,nested | array of qubits | array of arrays | tuple in tuple | array of options | 3-deep tuple | qubit in a struct field | classical struct | struct with qubit-array field | struct in struct | generic struct of qubit / of int | array of generic nested structs",
                   "positions": POSITIONS, "callee kinds": [KINDS[k] for k in kinds],
                   "dagger syntax": "8 function bodies with loops/assignments at different depths"}
     ctx.outside_claim = ["that the flags of a `with` block reach the body's CFG (CFGBuilder.visit_With / modifier_checker)",
